@@ -53,13 +53,14 @@ RefStepOK(k1, k2) ==
        /\ n \in DOMAIN k2
        /\ n \in DesiredNames =>
             LET w == Want(n) IN
-            IF Params(k2[n]) # Params(k1[n])
-              THEN \/ k2[n] = w                                        \* parameters replaced: complete new content
-                   \/ \E t \in belief.stale \cap DOMAIN k1 : k1[t] = k2[n]   \* (or what somebody else put into the set swapped in)
-              ELSE IF Params(k1[n]) # Params(w) /\ n \notin belief.stale
-                     THEN k2[n] = k1[n]                                \* replacement pending (and known to be): live set untouched
-                     ELSE /\ (k1[n].members \ k2[n].members) \cap w.members = {}
-                          /\ (k2[n].members \ k1[n].members) \subseteq w.members
+            \* what somebody else put into a set that is then swapped in is not Felix's doing
+            \/ \E t \in (belief.stale \cap DOMAIN k1) \ {n} : k1[t] = k2[n]
+            \/ IF Params(k2[n]) # Params(k1[n])
+                 THEN k2[n] = w                                        \* parameters replaced: complete new content
+                 ELSE IF Params(k1[n]) # Params(w) /\ n \notin belief.stale
+                        THEN k2[n] = k1[n]                             \* replacement pending (and known to be): live set untouched
+                        ELSE /\ (k1[n].members \ k2[n].members) \cap w.members = {}
+                             /\ (k2[n].members \ k1[n].members) \subseteq w.members
 
 DesiredExact(k, names) == \A n \in names : n \in DOMAIN k /\ k[n] = Want(n)
 NoStray(k, excused) == \A n \in DOMAIN k : Owned(n) /\ n \notin DesiredNames => n \in excused
